@@ -156,19 +156,27 @@ LEVEL_TEXT["C20"] = {
 LEVEL_TEXT["C11"] = {
     "text": "Theorems for any table bytes: find_sound (a returned (i,sym) is symtab[i] and the NUL-terminated string at st_name has exactly the "
             "queried bytes), gnu_hash = djb2 (h*33+c from 5381) mod 2^32 for every byte string, empty bucket array / bloom filter => None, no "
-            "division by zero (C01), chain walk examines at most chain_len entries (C16). Completeness on well-formed tables (bloom/bucket/"
-            "chain invariants) is established by the correspondence on tables built per the GNU format by an independent Rust builder over "
-            "name sets with duplicates, prefixes, djb2 collisions and same-bucket absent names; its Lean theorem is pending (partial).",
-    "note": COMMON_NOTE + " find_complete/find_absent under WFGnu are not yet theorems: that clause currently rests on the differential run + builder oracle.",
-    "technique": "Lean 4 proof (soundness, hash function) + differential correspondence on format-built tables + linear-scan oracle",
+            "division by zero (C01), chain walk examines at most chain_len entries (C16). Completeness on well-formed tables (WFGnu: non-zero "
+            "nbucket/nbloom, nshift<32, readable bloom words, every bucket empty or the start of a decodable run): find_wf (the answer is None "
+            "when the bloom filter rejects or the bucket is empty, else the first run entry whose stored hash and name match), find_complete "
+            "(a hashed symbol whose bloom bits are set and whose chain entry stores its hash is found by name), find_absent (a name carried by "
+            "no entry of its bucket's run gives None, whatever it collides with); WFGnu and the hypotheses are shown inhabited by a concrete "
+            "table. The correspondence runs tables built per the GNU format by an independent Rust builder over name sets with duplicates, "
+            "prefixes, djb2 collisions and same-bucket absent names.",
+    "note": COMMON_NOTE + " That a given builder's output satisfies WFGnu is checked per generated table by the harness oracle (linear scan), not proved for a builder.",
+    "technique": "Lean 4 proof (soundness, completeness under WFGnu, hash function) + differential correspondence on format-built tables + linear-scan oracle",
 }
 LEVEL_TEXT["C12"] = {
     "text": "Theorems for any table bytes: find_sound, empty bucket array => None, chain walk makes at most nchain steps (cyclic and self-"
-            "referential chains stop). The exported hash function is compared with the gABI elf_hash reference (32-bit form) exhaustively on "
-            "all strings of length <= 3 over a 16-symbol alphabet (thorough) plus random strings by the harness; completeness on well-formed "
-            "tables rests on the correspondence with tables built per the gABI by an independent builder (Lean theorems pending: partial).",
-    "note": COMMON_NOTE + " sysv_hash = elf_hash and find_complete under WFSysV are not yet theorems.",
-    "technique": "Lean 4 proof (soundness, step bound) + differential correspondence on gABI-built tables + linear-scan / reference-hash oracle",
+            "referential chains stop). hash_eq_elf_hash: the exported sysv_hash equals the gABI elf_hash reference (32-bit unsigned long form) "
+            "for every byte string (invariant: reference state = crate state mod 2^28). Completeness on well-formed tables (WFSysV: nbucket != 0, "
+            "every bucket heads a decodable chain ending at index 0 no longer than nchain): find_wf (the answer is the first symbol with the "
+            "queried name on the chain of bucket elf_hash(name) mod nbucket), find_complete (a symbol on its bucket's chain is found by name), "
+            "find_absent (None when no chain element carries the name, collisions or not); WFSysV shown inhabited. The correspondence runs "
+            "tables built per the gABI by an independent builder; the harness also compares sysv_hash with a C-style reference on random and "
+            "exhaustive short strings.",
+    "note": COMMON_NOTE + " That a given builder's output satisfies WFSysV is checked per generated table by the harness oracle, not proved for a builder.",
+    "technique": "Lean 4 proof (soundness, completeness under WFSysV, sysv_hash = elf_hash, step bound) + differential correspondence on gABI-built tables + linear-scan / reference-hash oracle",
 }
 LEVEL_TEXT["C13"] = {
     "text": "Theorems: a requirement returned for symbol i is built from a Verneed record and an aux record of its chain whose vna_other equals "
@@ -205,12 +213,16 @@ LEVEL_TEXT["C07"] = {
     "text": "The stream parser is modelled separately from the slice parser (elf_stream.rs accessor by accessor, on a CachingReader over a Device "
             "whose every I/O call consumes one entry of an arbitrary schedule). Proved for every schedule and history: the cache invariant "
             "(each cached buffer = the stream's bytes of its key range); read_bytes_refines (an Ok answer is byte-for-byte get_bytes of the "
-            "slice parser on the same contents); with a legal reader (short reads, Interrupted, no errors/EOF) read_exact succeeds whenever "
-            "the bytes exist. The accessor-level refinement (open succeeds iff slice opens, identical headers, query results equal up to "
-            "content) is established by the correspondence: random histories with repetition under legal schedules, compared with the model "
-            "AND with the real ElfBytes on the same bytes under the property's own relation (partial: accessor-level theorem pending).",
+            "slice parser on the same contents); read_bytes_complete (with a legal reader - short reads, Interrupted, no errors/EOF - a range "
+            "that fits is delivered, one that does not is an error). open_equiv: for every content < 2^63 bytes, byte-order policy and legal "
+            "schedule, open_stream succeeds exactly when minimal_parse of the same bytes succeeds, with the same file header, and the stream's "
+            "section/program header vectors are exactly the entries of the slice parser's lazy tables (section_headers_equiv, "
+            "program_headers_equiv incl. the e_shnum=0 / PN_XNUM escapes through shdr[0]); both disjuncts shown inhabited. Query-level "
+            "refinement theorems (<query>_refines, see Props/C07) cover the queries listed there; the remaining queries are established by "
+            "the correspondence: random histories with repetition under legal schedules, compared with the model AND with the real ElfBytes "
+            "on the same bytes under the property's own relation.",
     "note": COMMON_NOTE + " std::io::Read::read_exact's default loop, HashMap as a finite map and Vec are modelled, not verified.",
-    "technique": "Lean 4 proof (reader-layer refinement, all schedules) + differential correspondence of histories against model and ElfBytes",
+    "technique": "Lean 4 proof (reader-layer refinement, open_stream = minimal_parse, all legal schedules) + differential correspondence of histories against model and ElfBytes",
 }
 LEVEL_TEXT["C08"] = {
     "text": "Theorems over the I/O/allocation trace of the model, for every contents, history and schedule: every buffer allocation event is "
